@@ -3,7 +3,7 @@ use std::sync::Arc;
 use crate::block_watcher::BlockWatcher;
 use crate::cln_plugin::{Builder, Plugin};
 use crate::email::EmailNotificationService;
-use crate::messages::BlockAddedNotification;
+use crate::messages::{BlockAddedNotification, HtlcAcceptedResponse};
 use crate::store::ClnDatastore;
 use crate::{
     htlc_manager::HtlcManager, messages::HtlcAcceptedRequest, payment_provider::PaymentProvider,
@@ -63,8 +63,13 @@ where
     let req: HtlcAcceptedRequest = match serde_json::from_value(v) {
         Ok(req) => req,
         Err(e) => {
+            // A hook must always be answered with a result. An htlc this
+            // plugin cannot decode is not a trampoline htlc, so it is left
+            // to core lightning.
             error!("failed to deserialize htlc accepted request: {:?}", e);
-            return Err(e.into());
+            return Ok(serde_json::to_value(HtlcAcceptedResponse::Continue {
+                payload: None,
+            })?);
         }
     };
     let resp = plugin.state().htlc_manager.handle_htlc(&req).await;
